@@ -17,8 +17,9 @@ RTOL_BAD = 1e-6  # ... and a deviation reproduces only if it exceeds this one
 
 
 class Scenario:
-    def __init__(self, name, fn, family=None, core=True, twin=False, params=None, doc="", replayable=True):
+    def __init__(self, name, fn, family=None, core=True, twin=False, params=None, doc="", replayable=True, concrete_only=False):
         self.replayable = replayable
+        self.concrete_only = concrete_only  # runs on the unpatched code with the real backends only (sampling, labelled so)
         self.name = name
         self.fn = fn
         self.family = family or name.split("/")[0]
